@@ -100,6 +100,18 @@ func c07Case(i int, raw []byte) Result {
 				return Result{OK: false, Sig: "MACHINERY:enctables", What: fmt.Sprintf("reference table %s[%#x]=%#x disagrees with x/text charmap %#x", c.Enc, c.Code, exp, cm.DecodeByte(byte(c.Code)))}
 			}
 		}
+		// an overlay (a /Differences encoding) built over the named encoding changes what the OVERLAY decodes, never
+		// the named encoding itself - which every other font of the process shares
+		if base := font.GetEncoding(c.Enc); base != nil && exp != 0x2022 {
+			ov := font.NewCustomEncoding(base, map[byte]rune{byte(c.Code): 0x2022})
+			ov2 := font.NewCustomEncodingFromGlyphs(base, map[byte]string{byte(c.Code): "bullet"})
+			if o1, o2 := ov.DecodeString([]byte{byte(c.Code)}), ov2.DecodeString([]byte{byte(c.Code)}); !sameCps(cps(o1), []int{0x2022}) || !sameCps(cps(o2), []int{0x2022}) {
+				return mk("overlay", c.Enc, fmt.Sprintf("a /Differences overlay of %s mapping code %#02x to U+2022 decodes it to %U / %U", c.Enc, c.Code, []rune(o1), []rune(o2)), cps(o1))
+			}
+			if again := font.GetEncoding(c.Enc).DecodeString([]byte{byte(c.Code)}); again != got {
+				return mk("overlay-leak", c.Enc, fmt.Sprintf("after a /Differences overlay was built over %s, the named encoding itself decodes code %#02x to %U (before: %U)", c.Enc, c.Code, []rune(again), []rune(got)), cps(again))
+			}
+		}
 		if !sameCps(cps(got), []int{exp}) {
 			block := "hi"
 			if c.Code < 0x20 {
